@@ -17,6 +17,8 @@ P = 'bardolph/parser/parse.py'
 
 def family(c, progress=True):
     c.ensures('accept-or-message', 'result is True or (falsy(result) and errs() > old(errs()))')
+    # ... and not both: a text for which a message was produced must not come out as accepted (it would be run)
+    c.ensures('no-message-when-accepted', 'result is True ==> errs() == old(errs())')
     if progress:
         c.ensures('progress', 'result is True ==> tokens_consumed() > old(tokens_consumed())')
     return c
@@ -267,6 +269,7 @@ def sub(cls_mod, cls_name, meth, first=None, serves=('C06',), uses=('parser',), 
         return d
     c.setup(_setup)
     c.ensures('accept-or-message', 'result is True or (falsy(result) and errs() > old(errs()))')
+    c.ensures('no-message-when-accepted', 'result is True ==> errs() == old(errs())')
     return c
 
 
@@ -299,6 +302,7 @@ def _setup(b, case):
     return {'self': lp, 'code_gen': pr.attrs['_code_gen'], 'context_stack': pr.attrs['_context'], '_p': pr}
 c.setup(_setup)
 c.ensures('accept-or-message', 'result is True or (falsy(result) and errs() > old(errs()))')
+c.ensures('no-message-when-accepted', 'result is True ==> errs() == old(errs())')
 c.ensures('loop-frame-opened-first-closed-last', "result is True ==> instr(emitted(_p)[0], 'LOOP') and instr(emitted(_p)[-1], 'END_LOOP') "
           "and no_instr(emitted(_p)[1:-1], 'LOOP') and no_instr(emitted(_p)[1:-1], 'END_LOOP')")
 c.ensures('breaks-leave-through-the-loops-exit-point', "result is True ==> ghost('breaks_fixed') == 1 and jump_targets(_p, 'IF_FALSE', ghost('break_target'))")
@@ -324,6 +328,7 @@ for pre in ('UNKNOWN', 'EOF', 'NAME'):
         return {'self': pr, 'input_string': b.sym('str', 'text')}
     c.setup(_setup)
     c.ensures('accept-or-message', 'result is True or (falsy(result) and errs() > old(errs()))')
+    c.ensures('no-message-when-accepted', 'result is True ==> errs() == old(errs())')
     c.ensures('cursor-starts-on-the-first-token-of-the-new-text', 'tokens_consumed() >= 1')
     c.ensures('top-level-commands-are-at-nesting-0', "self._nesting == 0 and (ghost('nesting_at_last_phrase') is None or ghost('nesting_at_last_phrase') == 0)")
     c.ensures('code-generator-and-context-were-cleared', "ghost('cleared') is not None and len(ghost('cleared')) >= 2")
